@@ -276,6 +276,7 @@ type Ctx struct {
 	compSorts     map[string]string
 	nepoch        int
 	atCallSeen    map[*AtClause]bool
+	curLoopHead   *ssa.BasicBlock
 	quantVar      string
 	quantOff      string
 }
